@@ -3,7 +3,7 @@ use crate::common::traits::Parse;
 use crate::error::*;
 use crate::types::{coil_from_u16, AddressRange, Indexed, valid_range};
 use crate::shims::scursor::ReadCursor;
-use crate::spec::be16;
+use crate::be16;
 
 impl Parse for AddressRange {
     // start and quantity, big-endian; the range must be non-empty and must not run past 0xFFFF [C01]
